@@ -37,6 +37,7 @@ type facts struct {
 	GoStatements  []site      `json:"goStatements"`  // `go` statements (concurrency inside the library)
 	DirectiveSeq  []site      `json:"directiveSeq"`  // per function: the `$` literals of its body in source order (what = joined by " ")
 	StructFields  []site      `json:"structFields"`  // every field of every struct type of package bkl (file, type, "name type")
+	ToolState     []site      `json:"toolState"`     // package-level vars and struct types of cmd/* and wrapper (pkg, kind, name)
 }
 
 func posFunc(fset *token.FileSet, files []*ast.File, pos token.Pos) (string, string) {
@@ -293,6 +294,40 @@ func main() {
 		ta = append(ta, s)
 	}
 	f.TypeAsserts = ta
+	// tools: package-level variables and struct types (state that survives between calls inside one run)
+	for _, dir := range []string{"cmd/bkl", "cmd/bkld", "cmd/bkli", "cmd/bklr", "cmd/bklb", "cmd/kubectl-bkl", "wrapper"} {
+		tfset := token.NewFileSet()
+		tfiles, _, _, err := loadPkg(filepath.Join(repo, dir), tfset)
+		if err != nil {
+			continue
+		}
+		for _, file := range tfiles {
+			for _, d := range file.Decls {
+				gd, ok := d.(*ast.GenDecl)
+				if !ok {
+					continue
+				}
+				for _, sp := range gd.Specs {
+					switch x := sp.(type) {
+					case *ast.ValueSpec:
+						if gd.Tok == token.VAR {
+							for _, n := range x.Names {
+								f.ToolState = append(f.ToolState, site{dir, "var", n.Name})
+							}
+						}
+					case *ast.TypeSpec:
+						if st, ok := x.Type.(*ast.StructType); ok {
+							for _, fld := range st.Fields.List {
+								for _, n := range fld.Names {
+									f.ToolState = append(f.ToolState, site{dir, "field " + x.Name.Name, n.Name})
+								}
+							}
+						}
+					}
+				}
+			}
+		}
+	}
 	// cmd packages: option tags and exit paths
 	for _, c := range []string{"bkl", "bkld", "bkli", "bklr", "bklb"} {
 		cfset := token.NewFileSet()
@@ -341,7 +376,7 @@ func main() {
 			return s[i].What < s[j].What
 		})
 	}
-	for _, s := range [][]site{f.RawMapRanges, f.TypeAsserts, f.PkgVars, f.PkgVarWrites, f.FileReads, f.DepthGuards, f.CliOptions, f.ExitCalls, f.GoStatements} {
+	for _, s := range [][]site{f.RawMapRanges, f.TypeAsserts, f.PkgVars, f.PkgVarWrites, f.FileReads, f.DepthGuards, f.CliOptions, f.ExitCalls, f.GoStatements, f.ToolState} {
 		sortSites(s)
 	}
 	sort.Slice(f.FormatTable, func(i, j int) bool { return f.FormatTable[i][0] < f.FormatTable[j][0] })
